@@ -172,6 +172,9 @@ func (req *pbRequest) Unmarshal(data []byte) (err error) {
 			offset += n
 		}
 	}
+	if offset > length {
+		return errMalformedHeader
+	}
 	return nil
 }
 
@@ -307,6 +310,9 @@ func (res *pbResponse) Unmarshal(data []byte) (err error) {
 			n = code.DecodeBytes(data[offset:], &res.Reply)
 			offset += n
 		}
+	}
+	if offset > length {
+		return errMalformedHeader
 	}
 	return nil
 }
